@@ -36,6 +36,8 @@ CHECKS = {
         "legs": [
             {"test": "TestC08", "quick": {"checks": 100000, "timeout": "10m"},
              "thorough": {"checks": 300000, "shards": 8, "timeout": "60m"}},
+            {"test": "TestC08_Session", "quick": {"checks": 1500, "timeout": "10m"},
+             "thorough": {"checks": 20000, "shards": 4, "timeout": "60m"}},
             {"test": "FuzzC08", "thorough": {"fuzz": "120s", "timeout": "10m"}},
         ],
     },
